@@ -15,6 +15,7 @@ var verifSources = []string{
 	"k = {a = 1, \"b\" = f(2, x...)} /* m */\nm = <<E\n t${a}\nE\nq=a ? b.c[0] : d.*.e\n",
 	"k = \"%{if a}x%{else}y%{endif}\"\nh = <<-E\n  a\n  E\nz = [for i, v in l: v if i]\n",
 	"m = <<E\n${s} t\nE\nn = <<-E\n  %{if t}y%{endif}\n    ${s}\n  E\nq = \"${s}\"\n",
+	"A {\n  x = 1\n} /* e */\nb = l[true]\nC /* c */ \"l\" {}\nD {} # d\nE /* c */ l {\n}\n",
 }
 
 // variables for evaluating the sources' attribute values before and after a rewrite
@@ -324,4 +325,62 @@ func verifContains(hay []byte, needle string) bool {
 		}
 	}
 	return false
+}
+
+// H_c20_string_value: whatever string a program hands to the writer (quotes, backslashes,
+// template markers, control characters followed by characters that look like hex digits, ...),
+// the literal it writes reads back as exactly that string - as an attribute value and as a
+// block label.
+func H_c20_string_value() {
+	hclsyntax.VerifRuneSeg = true
+	start := hcl.Pos{Byte: 0, Line: 1, Column: 1}
+	// slices of the input space (the first choice partitions the run for sharding): strings of
+	// length 0, 1, 2, and strings of length 3 by the sixteen-value class of their first
+	// character (thorough tier only: a 3-character slice takes 15-30 minutes)
+	type slc struct{ n, cls int }
+	slices := []slc{{0, -1}, {1, -1}, {2, -1}}
+	for c := 0; c < verif_bound("string-value-3-char-first-char-classes", 0, 8); c++ {
+		slices = append(slices, slc{3, c})
+	}
+	pick := nondet_choice("label-x-slice", 2*len(slices))
+	asLabel := pick%2 == 1
+	sl := slices[pick/2]
+	s := verifText("text", sl.n)
+	if sl.cls >= 0 {
+		verif_assume(int(s[0]>>4) == sl.cls)
+	}
+	f := NewEmptyFile()
+	if asLabel {
+		f.Body().AppendNewBlock("b", []string{s})
+	} else {
+		f.Body().SetAttributeValue("a", cty.StringVal(s))
+	}
+	out := f.Bytes()
+	sf, sdiags := hclsyntax.ParseConfig(out, "f", start)
+	verif_assert(!sdiags.HasErrors(), "the written file is a valid file")
+	if sdiags.HasErrors() {
+		return
+	}
+	nb := sf.Body.(*hclsyntax.Body)
+	if asLabel {
+		verif_assert(len(nb.Blocks) == 1, "the written block is there")
+		if len(nb.Blocks) == 1 {
+			verif_assert(len(nb.Blocks[0].Labels) == 1, "the written block has one label")
+			if len(nb.Blocks[0].Labels) == 1 {
+				verif_assert(nb.Blocks[0].Labels[0] == s, "a written label reads back as exactly the string given")
+			}
+		}
+	} else {
+		a := nb.Attributes["a"]
+		verif_assert(a != nil, "the written attribute is there")
+		if a != nil {
+			v, d := a.Expr.Value(nil)
+			verif_assert(!d.HasErrors(), "the written value evaluates")
+			verif_assert(v.Type() == cty.String, "the written value is a string")
+			if v.Type() == cty.String {
+				verif_assert(v.AsString() == s, "a written string reads back as exactly the string given")
+			}
+		}
+	}
+	verif_witness()
 }
